@@ -340,6 +340,7 @@ def OpWF : Op → Prop
   | .reset _ vs => ∀ v ∈ vs, NetWF v.1
   | .val n _ => NetWF n
   | .iter _ => True
+  | .display _ n _ => NetWF n
 
 /-- the recorded open finding is not exercised: no `validate` while the VRP set of the
     route's family is empty -/
@@ -351,6 +352,7 @@ def nonEmptyVals : List Vrp → List Op → Bool
   | s, .drop c :: ops => nonEmptyVals (sStep s (.drop c)) ops
   | s, .reset c vs :: ops => nonEmptyVals (sStep s (.reset c vs)) ops
   | s, .iter _ :: ops => nonEmptyVals s ops
+  | s, .display _ r _ :: ops => !(famOf s r.fam).isEmpty && nonEmptyVals s ops
 
 theorem rfc6811_congr {s1 s2 : List Vrp} (h : ∀ v, v ∈ s1 ↔ v ∈ s2) (o : Option Nat) (r : Net) :
     rfc6811 s1 o r = rfc6811 s2 o r := by
@@ -412,6 +414,25 @@ theorem checkVal_ok {t : Table} {s : List Vrp} (hi : TableInv t) (hr : R t s) (l
       rw [← origin_is_rfc6811 la path hwf', ← rfc6811_congr hr.mem, hst]
       simp
 
+theorem checkShow_ok {t : Table} {s : List Vrp} (hi : TableInv t) (hr : R t s) (la : Nat) (st : VState) {r : Net}
+    (hn : NetWF r) (path : Option (List Seg)) (hne : (famOf s r.fam).isEmpty = false) :
+    ∃ res, t.validate la r path = some res ∧
+      checkShow s la st r path (.api (some (res.state, res.reason)) (decide (res.state = st))) = none := by
+  have hst := validate_state hi hn la path (trie_ne_nil_of_fam hr hne)
+  cases hv : t.validate la r path with
+  | none => simp [hv] at hst
+  | some res =>
+    refine ⟨res, rfl, ?_⟩
+    simp only [hv, Option.map_some, Option.some.injEq] at hst
+    simp only [checkShow]
+    by_cases hbad : pathBad path = true
+    · simp [hbad]
+    · have hwf' : ∀ segs, path = some segs → pathWF segs = true := by
+        intro segs hp; subst hp; simpa [pathBad] using hbad
+      simp only [hbad, if_false]
+      rw [← origin_is_rfc6811 la path hwf', ← rfc6811_congr hr.mem, hst]
+      simp
+
 theorem checkIter_ok {t : Table} {s : List Vrp} (hi : TableInv t) (hr : R t s) (f : Fam) :
     ∃ l, t.iter f = .ok l ∧ checkIter s f (.it l) = none := by
   obtain ⟨l, hl, habs⟩ := iterTrie_ok (hi.trie f).keyOK
@@ -463,6 +484,13 @@ theorem run_sim (la : Nat) (ops : List Op) : ∀ (t : Table) (s : List Vrp) (i :
       obtain ⟨t', obs, hrun, hchk, hi', hr'⟩ := ih t s (i + 1) hi hr hwf' hne.2
       refine ⟨t', .v res :: obs, by simp [runFrom, step, hv, hrun], ?_, hi', by simpa [sStep] using hr'⟩
       simp [checkFrom, hc, hchk]
+    | display st r path =>
+      simp only [nonEmptyVals, Bool.and_eq_true, Bool.not_eq_true'] at hne
+      obtain ⟨res, hv, hc⟩ := checkShow_ok hi hr la st hwf0 path hne.1
+      obtain ⟨t', obs, hrun, hchk, hi', hr'⟩ := ih t s (i + 1) hi hr hwf' hne.2
+      refine ⟨t', .api (some (res.state, res.reason)) (decide (res.state = st)) :: obs,
+        by simp [runFrom, step, hv, hrun], ?_, hi', by simpa [sStep] using hr'⟩
+      simp [checkFrom, hc, hchk]
     | iter f =>
       obtain ⟨l, hl, hc⟩ := checkIter_ok hi hr f
       obtain ⟨t', obs, hrun, hchk, hi', hr'⟩ := ih t s (i + 1) hi hr hwf' (by simpa [nonEmptyVals] using hne)
@@ -510,6 +538,13 @@ theorem run_ok (la : Nat) (ops : List Op) : ∀ (t : Table) (s : List Vrp),
       cases hv : t.validate la r path with
       | none => exact ⟨t', .unvalidated :: obs, by simp [runFrom, step, hv, hrun], hi', by simpa [sStep] using hr'⟩
       | some res => exact ⟨t', .v res :: obs, by simp [runFrom, step, hv, hrun], hi', by simpa [sStep] using hr'⟩
+    | display st r path =>
+      obtain ⟨t', obs, hrun, hi', hr'⟩ := ih t s hi hr hwf'
+      cases hv : t.validate la r path with
+      | none => exact ⟨t', .api none false :: obs, by simp [runFrom, step, hv, hrun], hi', by simpa [sStep] using hr'⟩
+      | some res =>
+        exact ⟨t', .api (some (res.state, res.reason)) (decide (res.state = st)) :: obs,
+          by simp [runFrom, step, hv, hrun], hi', by simpa [sStep] using hr'⟩
     | iter f =>
       obtain ⟨l, hl, _⟩ := checkIter_ok hi hr f
       obtain ⟨t', obs, hrun, hi', hr'⟩ := ih t s hi hr hwf'
